@@ -240,7 +240,10 @@ pub fn eval_case(w: &mut Worker, c: &Case) -> Result<Outcome, String> {
     }
     out.sample = Some(json!({"entry_path": src.last().unwrap().0, "source": crate::util::truncate(entry_src, 300)}));
     let codes: Vec<&String> = arts.iter().map(|(_, s)| s).collect();
-    let resp = w.request(&json!({"kind":"syntax","codes":codes})).map_err(|e| e.0)?;
+    let total: usize = codes.iter().map(|c| c.len()).sum();
+    // V8 parses ~10 MB/s when 16 workers run at once: allow for the size of the request
+    let timeout = crate::jsworker::REQUEST_TIMEOUT_S + (total as u64 / 100_000) * 2;
+    let resp = w.request_within(&json!({"kind":"syntax","codes":codes}), timeout).map_err(|e| e.0)?;
     for ((name, code), r) in arts.iter().zip(resp["results"].as_array().cloned().unwrap_or_default()) {
         for mode in ["sloppy", "strict"] {
             if let Some(msg) = r[mode].as_str() {
